@@ -342,7 +342,7 @@ func (n *Tree[V]) findNode(path string, captures []string, matcher LookupMatcher
 	pathLen := len(path)
 	if pathLen == 0 {
 		if len(n.values) == 0 {
-			return nil, 0, nil, true
+			return nil, 0, captures, true
 		}
 
 		for idx, value = range n.values {
@@ -351,7 +351,7 @@ func (n *Tree[V]) findNode(path string, captures []string, matcher LookupMatcher
 			}
 		}
 
-		return nil, 0, nil, n.backtrackingEnabled
+		return nil, 0, captures, n.backtrackingEnabled
 	}
 
 	// First see if this matches a static token.
